@@ -340,6 +340,47 @@ theorem shutdown_and_fatal_skip_generation (e : Eng) (algoC : List CancelReq) (a
   intro c hf
   simp [process, hf]
 
+/-- (3) which failures are fatal: the error of a failed request is unrecoverable exactly when the
+link is gone (receiver dropped) or the exchange has no link (none configured / index out of range);
+a transmitter that merely refuses the item gives a recoverable error. -/
+theorem failed_fatal_iff (links : List Link) (x : Nat) (err : SendError)
+    (h : linkResult links x = some err) :
+    (err.unrecoverable = true ↔
+      (links[x]? = some .closed ∨ links[x]? = some .missing ∨ links[x]? = none)) ∧
+    (err = .unhealthy ↔ links[x]? = some .unhealthy) := by
+  unfold linkResult at h
+  cases hl : links[x]? with
+  | none => simp [hl] at h; subst h; simp [SendError.unrecoverable]
+  | some l => cases l <;> simp [hl] at h <;> subst h <;> simp [SendError.unrecoverable]
+
+/-- (3) a send output is fatal exactly when one of its requests is addressed to an exchange whose
+link is gone or absent. -/
+theorem send_requests_fatal_iff {α : Type} (e : Eng) (toReq : α → Req) (rs : List α) :
+    (sendRequests e toReq rs).2.fatal = true ↔
+      ∃ q ∈ rs, e.links[(toReq q).key.exchange]? = some .closed ∨
+        e.links[(toReq q).key.exchange]? = some .missing ∨ e.links[(toReq q).key.exchange]? = none := by
+  simp only [SendOut.fatal, List.any_eq_true]
+  constructor
+  · rintro ⟨⟨q, err⟩, hm, hu⟩
+    have hp := (send_requests_partition e toReq rs).2.2.1 q err |>.mp hm
+    exact ⟨q, hp.1, (failed_fatal_iff _ _ _ hp.2).1.mp hu⟩
+  · rintro ⟨q, hq, hl⟩
+    cases hr : linkResult e.links (toReq q).key.exchange with
+    | none =>
+      unfold linkResult at hr
+      rcases hl with hl | hl | hl <;> simp [hl] at hr
+    | some err =>
+      refine ⟨(q, err), (send_requests_partition e toReq rs).2.2.1 q err |>.mpr ⟨hq, hr⟩, ?_⟩
+      exact (failed_fatal_iff _ _ _ hr).1.mpr hl
+
+/-- (3)+(5) a command whose only failures are recoverable does not stop the tick: generation runs
+on the state the command left, exactly as after a fully delivered command. -/
+theorem recoverable_command_error_continues (e : Eng) (c : Command) (algoC : List CancelReq)
+    (algoO : List OpenReq) (refuse : Key → Bool) (h : (action e c).2.fatal = false) :
+    process e (.command c) algoC algoO refuse =
+      generateStage (action e c).1 (some (action e c).2) algoC algoO refuse := by
+  simp [process, h]
+
 /-! Non-vacuity: a two-exchange engine where exchange 1's link is closed. -/
 def demo : Eng :=
   { enabled := true, links := [.healthy, .closed], log := [],
@@ -351,5 +392,13 @@ example : (generateAlgoOrders demo [] [o0, o1] (fun _ => false)).2.opens.sent = 
     (generateAlgoOrders demo [] [o0, o1] (fun _ => false)).1.log = [.opn o0] := by decide +kernel
 example : orderState (generateAlgoOrders demo [] [o0, o1] (fun _ => false)).1 0 5 = some .inFlight ∧
     orderState (generateAlgoOrders demo [] [o0, o1] (fun _ => false)).1 1 6 = none := by decide +kernel
+
+/-! Non-vacuity for the recoverable case: exchange 1's transmitter refuses items. -/
+def demoU : Eng := { demo with links := [.healthy, .unhealthy] }
+example : (generateAlgoOrders demoU [] [o0, o1] (fun _ => false)).2.opens.errors = [(o1, .unhealthy)] ∧
+    (generateAlgoOrders demoU [] [o0, o1] (fun _ => false)).2.fatal = false ∧
+    (generateAlgoOrders demoU [] [o0, o1] (fun _ => false)).1.log = [.opn o0] ∧
+    orderState (generateAlgoOrders demoU [] [o0, o1] (fun _ => false)).1 1 6 = none ∧
+    (generateAlgoOrders demo [] [o0, o1] (fun _ => false)).2.fatal = true := by decide +kernel
 
 end BarterModel.Props.C03
